@@ -20,6 +20,11 @@ pub struct InputVariant {
 }
 
 impl InputVariant {
+    /// Whether the variant is excluded from parsing.
+    pub(in crate::options) fn is_skipped(&self) -> bool {
+        self.skip.unwrap_or_default()
+    }
+
     /// The fields of the variant, for validation across them.
     pub(in crate::options) fn fields(&self) -> &Fields<InputField> {
         &self.data
